@@ -92,6 +92,32 @@ def padBits (x : List Nat) (index : Nat) : Nat → Nat → Bool
     | some true => false
     | _ => padBits x index cnt (off + 1)
 
+/-- the last round of `decompress` (everything after the `for` loop), from the state the loop left -/
+def lastPart (chk : Bool) (x : List Nat) (len : Nat) (index : Nat) (abort : Bool) (acc : List Int) :
+    Res (Option (List Int)) := do
+  if index + Gen.guardLast ≥ len then pure none
+  else if len == index then pure none
+  else do
+    let neg ← bitAt x index
+    let index := index + 1
+    match ← lowLast x index with
+    | none => pure none
+    | some low => do
+      let index := index + 7
+      if len == index then pure none
+      else
+        match ← unaryLast chk x len len index 0 with
+        | none => pure none
+        | some (index, high) => do
+          if abort || (low == 0 && high == 0 && neg) then pure none
+          else do
+            let v ← compose chk neg high low
+            let index := index + 1
+            let d := index / 8; let m := index % 8
+            if !padBits x index (8 - m) 0 then pure none
+            else if (x.drop (d + 1 - (if m = 0 then 1 else 0))).any (· ≠ 0) then pure none
+            else pure (some (v :: acc).reverse)
+
 /-- `decompress(x, n)` -/
 def decompress (chk : Bool) (x : List Nat) (n : Nat) : Res (Option (List Int)) := do
   let len := 8 * x.length
@@ -99,29 +125,7 @@ def decompress (chk : Bool) (x : List Nat) (n : Nat) : Res (Option (List Int)) :
   let iters ← (if n = 0 then (if chk then Res.panic .overflow else Res.ok (len + 1)) else Res.ok (n - 1))
   match ← midLoop chk x len iters 0 false [] with
   | none => pure none
-  | some (index, abort, acc) => do
-    if index + Gen.guardLast ≥ len then pure none
-    else if len == index then pure none
-    else do
-      let neg ← bitAt x index
-      let index := index + 1
-      match ← lowLast x index with
-      | none => pure none
-      | some low => do
-        let index := index + 7
-        if len == index then pure none
-        else
-          match ← unaryLast chk x len len index 0 with
-          | none => pure none
-          | some (index, high) => do
-            if abort || (low == 0 && high == 0 && neg) then pure none
-            else do
-              let v ← compose chk neg high low
-              let index := index + 1
-              let d := index / 8; let m := index % 8
-              if !padBits x index (8 - m) 0 then pure none
-              else if (x.drop (d + 1 - (if m = 0 then 1 else 0))).any (· ≠ 0) then pure none
-              else pure (some (v :: acc).reverse)
+  | some (index, abort, acc) => lastPart chk x len index abort acc
 
 /-! ### compress -/
 
